@@ -13,13 +13,14 @@ vars == <<toks, pend>>
 (* production -> operand types, left to right *)
 (* VAR reads the global counter `cnt`, BUMP increments it through `modify` and returns it: a later   *)
 (* sibling must not disturb the value an earlier operand already produced                            *)
-IntProds == {"L", "add", "sub", "mul", "call2", "call3", "orp", "orn", "rec", "neg", "VAR", "BUMP"}
+(* ELEM / FLD read a list element / an object field, PUT / FBUMP write that very slot and return it    *)
+IntProds == {"L", "add", "sub", "mul", "call2", "call3", "orp", "orn", "rec", "neg", "VAR", "BUMP", "ELEM", "PUT", "FLD", "FBUMP"}
 (* KT / KF are the literals true / false (no side effect): folding must not drop a sibling *)
 BoolProds == {"LT", "LF", "and", "or", "lt", "eq", "not", "andor", "KT", "KF"}
 IxProds == {"LI0", "LI1"}
-RootProds == {"printi", "printb", "list3", "call4", "ifb", "assign2", "listidx"}
+RootProds == {"printi", "printb", "list3", "call4", "ifb", "assign2", "listidx", "map3", "mcall2"}
 Kids(p) ==
-    CASE p \in {"L", "LT", "LF", "LI0", "LI1", "VAR", "BUMP", "KT", "KF"} -> <<>>
+    CASE p \in {"L", "LT", "LF", "LI0", "LI1", "VAR", "BUMP", "KT", "KF", "ELEM", "PUT", "FLD", "FBUMP"} -> <<>>
       [] p \in {"add", "sub", "mul", "call2", "lt", "eq"} -> <<"int", "int">>
       [] p = "call3" -> <<"int", "int", "int">>
       [] p = "listidx" -> <<"int", "int", "ix">>
@@ -29,12 +30,13 @@ Kids(p) ==
       [] p = "not" -> <<"bool">>
       [] p = "printi" -> <<"int">>
       [] p = "printb" -> <<"bool">>
-      [] p = "list3" -> <<"int", "int", "int">>
+      [] p \in {"list3", "map3"} -> <<"int", "int", "int">>
+      [] p = "mcall2" -> <<"int", "int">>
       [] p = "call4" -> <<"int", "int", "int", "int">>
       [] p = "ifb" -> <<"bool">>
       [] p = "assign2" -> <<"int", "int">>
 Prods(ty) == CASE ty = "int" -> IntProds [] ty = "bool" -> BoolProds [] ty = "ix" -> IxProds [] ty = "root" -> Roots
-Leafs(ty) == CASE ty = "int" -> {"L", "VAR", "BUMP"} [] ty = "bool" -> {"LT", "LF", "KT", "KF"} [] ty = "ix" -> IxProds [] ty = "root" -> {}
+Leafs(ty) == CASE ty = "int" -> {"L", "VAR", "BUMP", "ELEM", "PUT", "FLD", "FBUMP"} [] ty = "bool" -> {"LT", "LF", "KT", "KF"} [] ty = "ix" -> IxProds [] ty = "root" -> {}
 
 Init == toks = <<>> /\ pend = <<[ty |-> "root", d |-> 0]>>
 Choose(p) ==
@@ -63,6 +65,10 @@ Parse(ts, i) ==
      e |-> CASE p = "L" -> LogI(i)
              [] p = "VAR" -> V("cnt")
              [] p = "BUMP" -> Call(V("bump"), <<>>)
+             [] p = "ELEM" -> Idx(V("cells"), V("z0"))
+             [] p = "PUT" -> Call(V("put"), <<>>)
+             [] p = "FLD" -> Fld(V("box"), "n")
+             [] p = "FBUMP" -> MCall(V("box"), "bump", <<>>)
              [] p = "KT" -> B(TRUE)
              [] p = "KF" -> B(FALSE)
              [] p = "LT" -> Call(V("lb"), <<I(i), B(TRUE)>>)
@@ -87,15 +93,28 @@ Parse(ts, i) ==
              [] p = "printi" -> Print(x[1])
              [] p = "printb" -> Print(x[1])
              [] p = "list3" -> Print(List(x))
+             \* a map literal whose first and last pair spell the same key: every pair is evaluated, in order; the last wins
+             [] p = "map3" -> Let("mm", [k |-> "map", kt |-> "str", vt |-> "int", braces |-> TRUE,
+                                         kvs |-> <<[key |-> S("a"), val |-> x[1]], [key |-> S("b"), val |-> x[2]], [key |-> S("a"), val |-> x[3]]>>])
+             [] p = "mcall2" -> Print(MCall(V("box"), "add2", x))
              [] p = "call4" -> Print(Call(V("f4"), x))
              [] p = "ifb" -> IfElse(x[1], <<Print(S("then"))>>, <<Print(S("else"))>>)
              [] p = "assign2" -> LetT("pair", "[int...]", List(<<x[1], x[2]>>))
              [] p = "listidx" -> LetT("pair", "[int...]", List(<<x[1], x[2]>>))]
-Tail2(ts) == IF ts[1] = "listidx" THEN <<Print(Idx(V("pair"), Parse(ts, 1).ix))>>
+Tail2(ts) == IF ts[1] = "map3" THEN <<Print(Idx(V("mm"), S("a"))), Print(Idx(V("mm"), S("b"))), Print(MCall(V("mm"), "len", <<>>))>>
+             ELSE IF ts[1] = "listidx" THEN <<Print(Idx(V("pair"), Parse(ts, 1).ix))>>
              ELSE IF ts[1] = "assign2" THEN <<Print(V("pair"))>> ELSE <<>>
 
 Prologue ==
     <<Let("cnt", I(1000)),
+      LetT("cells", "[int...]", List(<<I(500)>>)), Let("z0", I(0)),
+      Let("put", Fn("put", <<>>, "int", <<Print(S("put")), Let("k0", I(0)), Assign(Idx(V("cells"), V("k0")), "+", I(1)), Ret(Idx(V("cells"), V("k0")))>>)),
+      [k |-> "class", n |-> "Box", export |-> FALSE, fields |-> <<[n |-> "n", ty |-> "int"]>>,
+       ctor |-> <<[ps |-> <<>>, b |-> <<Assign(Fld(Self, "n"), "=", I(700))>>]>>,
+       methods |-> <<[n |-> "bump", ps |-> <<>>, rt |-> "int", b |-> <<Print(S("fbump")), Assign(Fld(Self, "n"), "+", I(1)), Ret(Fld(Self, "n"))>>],
+                     [n |-> "add2", ps |-> <<P("a", "int"), P("b", "int")>>, rt |-> "int",
+                      b |-> <<Print(S("add2")), Ret(Bin("-", Bin("*", V("a"), I(3)), V("b")))>>]>>],
+      Let("box", New("Box", <<>>)),
       Let("bump", Fn("bump", <<>>, "int", <<Print(S("bump")), Modify("cnt", Bin("+", V("cnt"), I(1))), Ret(V("cnt"))>>)),
       Let("lg", Fn("lg", <<P("n", "int")>>, "int", <<Print(V("n")), Ret(V("n"))>>)),
       Let("lb", Fn("lb", <<P("n", "int"), P("b", "bool")>>, "bool", <<Print(V("n")), Ret(V("b"))>>)),
